@@ -30,6 +30,11 @@ def run(ctx):
     check_lookahead(ctx, prog)
     check_lines(ctx, prog)
     check_headers(ctx, prog)
+    check_parse_query(ctx, prog)
+    # readHeaders() trims every folded header line: the trim helpers must not cut a negative range for blank lines
+    import C03
+    sp = ir.load_units([os.path.join(ir.REPO, 'src', 'String.cpp')]) if not any(f.get('pq') == 'asl::String::trimmed' and f.get('body') for f in prog.functions) else prog
+    C03.check_trim(ctx, sp, rule='C09.lines')
     return __doc__.split('\n\n', 1)[1]
 
 
@@ -279,6 +284,23 @@ def check_splitidx(ctx, prog):
                 ctx.check(implied, 'R-SPLITIDX', f['pq'], '%s:%s[%d] of a split() result' % (f['n'], arrs[vid]['n'], k), fwhere(f, e['l']), 'dominated by a length test implying length > %d' % k,
                           '`%s[%d]` reads an element of a split() result without a dominating test that the result has more than %d parts: a peer-chosen string with fewer separators reads out of bounds' % (arrs[vid]['n'], k, k))
     ctx.floor('R-SPLITIDX', n, 4)
+
+
+def check_parse_query(ctx, prog):
+    """C09.query: parseQuery splits the raw query on '&' and '=' first and percent-decodes each key and value afterwards; decoding
+    the whole string first turns an encoded %26 / %3D inside a value into a separator."""
+    f = fn1(prog, 'asl::Url::parseQuery')
+    ctx.analysed(f)
+    splits = [e for e in fn_exprs(f) if e.get('k') == 'call' and (e.get('pq') or '').endswith('String::split')]
+    decs = [e for e in fn_exprs(f) if e.get('k') == 'call' and e.get('pq') == 'asl::Url::decode']
+    role = 'parseQuery:split on the raw text, decode the pieces'
+    if not splits or not decs:
+        ctx.undecided('C09.query', f['pq'], role, fwhere(f), 'split / decode calls not found')
+        return
+    bad = [e for e in splits if any(w.get('k') == 'call' and w.get('pq') == 'asl::Url::decode' for w in walk_expr(q.expand(f, e.get('obj') or {})))]
+    ctx.evaluations += len(splits)
+    ctx.check(not bad, 'C09.query', f['pq'], role, fwhere(f, bad[0]['l'] if bad else None), 'the receiver of split() is not percent-decoded',
+              'parseQuery percent-decodes the query before splitting it (`%s`): an encoded & or = inside a key or value becomes a separator, so parameters are truncated and parameters that were never sent appear' % (pe(bad[0]) if bad else ''))
 
 
 def check_query(ctx, prog):
